@@ -282,7 +282,7 @@ pub fn execute(plan: &Plan, ctx: &mut Ctx) {
                                 ctx.count("fault.misdim");
                             }
                         }
-                        if misdim {
+                        if misdim && dimcheck {
                             Step { out: Exp::Any, ret: None, reset: false, class: 7 }
                         } else {
                             m.update(&input)
